@@ -1,1 +1,191 @@
-// harness file fdl_active (see /verif/DESIGN.md)
+// L2 harnesses: one poll() of the FDL active station from a symbolic state (src/fdl/active.rs),
+// as crate::fdl::active::verif.  Serves C01, C02, C05, C06, C11, C12, C13, C15.
+//
+// Shape (DESIGN §2.1, §3): the pre-state is symbolic under the representation invariant
+// `inv_fdl`; one real poll_inner() runs against a harness PHY with symbolic content and symbolic
+// `now`; labelled assertions compare the outcome with reference rules written from the FDL
+// state machine description; `inv_fdl` is asserted again (inductive).  TokenRing's three
+// bitvec-heavy methods are replaced by the u128 reference model (stubs operate on the real
+// struct; L1 harnesses in fdl_token_ring.rs relate model and real code).
+
+use super::*;
+use crate::fdl::token_ring::verif::{any_model, from_model, ring_inv, to_model, MLas, Model};
+use crate::fdl::{FdlApplication, Parameters};
+use crate::verif_support::*;
+
+pub(crate) type Inst = crate::time::Instant;
+
+/// Harness bus parameters: fixed baud rate and slot time (the time lemmas in fdl_parameters.rs
+/// cover all baud rates and slot times); everything else symbolic within the builder's ranges.
+pub(crate) const BAUD: crate::Baudrate = crate::Baudrate::B500000;
+pub(crate) const RATE: u64 = 500_000;
+pub(crate) const SLOT_BITS: u16 = 300;
+
+pub(crate) fn any_params() -> Parameters {
+    let address: u8 = kani::any();
+    let hsa: u8 = kani::any();
+    kani::assume(address <= 125 && hsa > address && hsa <= 126);
+    let gap: u8 = kani::any();
+    kani::assume(gap >= 1 && gap <= 100);
+    Parameters {
+        address,
+        baudrate: BAUD,
+        slot_bits: SLOT_BITS,
+        token_rotation_bits: 32436,
+        gap_wait_rotations: gap,
+        highest_station_address: hsa,
+        ..Default::default()
+    }
+}
+
+pub(crate) const T_MAX: i64 = 1 << 40;
+
+pub(crate) fn any_instant() -> Inst {
+    let t: i64 = kani::any();
+    kani::assume(t >= 0 && t < T_MAX);
+    Inst::from_micros(t)
+}
+
+pub(crate) fn any_gap_state(p: &Parameters) -> GapState {
+    if kani::any() {
+        let rotation_count: u8 = kani::any();
+        kani::assume(rotation_count <= p.gap_wait_rotations + 1);
+        GapState::Waiting { rotation_count }
+    } else {
+        let current_address: u8 = kani::any();
+        kani::assume(current_address < p.highest_station_address);
+        GapState::DoPoll { current_address }
+    }
+}
+
+pub(crate) fn any_attempt() -> PassTokenAttempt {
+    match kani::any::<u8>() {
+        0 => PassTokenAttempt::First,
+        1 => PassTokenAttempt::Second,
+        _ => PassTokenAttempt::Third,
+    }
+}
+
+pub(crate) fn any_opt_addr() -> Option<u8> {
+    if kani::any() {
+        let a: u8 = kani::any();
+        kani::assume(a <= 127);
+        Some(a)
+    } else {
+        None
+    }
+}
+
+/// Station in the given state, everything else symbolic.  `napps` = number of applications the
+/// station is polled with (bounds `next_application`).
+pub(crate) fn any_station(p: Parameters, state: State, napps: usize) -> FdlActiveStation {
+    let ring = any_model(p.address);
+    let next_application: usize = kani::any();
+    kani::assume(next_application < napps || (napps == 0 && next_application == 0));
+    let pending_bytes: usize = kani::any();
+    kani::assume(pending_bytes <= 300);
+    FdlActiveStation {
+        token_ring: from_model(&ring),
+        connectivity_state: ConnectivityState::Online,
+        gap_state: any_gap_state(&p),
+        state,
+        last_bus_activity: if kani::any() { Some(any_instant()) } else { None },
+        pending_bytes,
+        last_token_time: any_instant(),
+        end_token_hold_time: any_instant(),
+        next_application,
+        p,
+    }
+}
+
+/// Representation invariant of the station (assumed before, asserted after every step).
+pub(crate) fn inv_fdl(s: &FdlActiveStation, napps: usize) -> bool {
+    let p = &s.p;
+    let params_ok = p.address <= 125
+        && p.highest_station_address > p.address
+        && p.highest_station_address <= 126
+        && p.gap_wait_rotations >= 1
+        && p.gap_wait_rotations <= 100;
+    let ring_ok = ring_inv(&s.token_ring) && s.token_ring.this_station() == p.address;
+    let gap_ok = match s.gap_state {
+        GapState::Waiting { rotation_count } => rotation_count <= p.gap_wait_rotations + 1,
+        GapState::DoPoll { current_address } => current_address < p.highest_station_address,
+    };
+    let polled = |a: u8| a != p.address && s.gap_state == GapState::DoPoll { current_address: a };
+    let app_ok = s.next_application < napps || (napps == 0 && s.next_application == 0);
+    let state_ok = match &s.state {
+        State::Offline => s.connectivity_state == ConnectivityState::Offline,
+        State::PassiveIdle => false,
+        State::ListenToken { collision_count, .. } => *collision_count <= 1,
+        State::ActiveIdle { collision_count, .. } => *collision_count <= 1,
+        State::UseToken { data, .. } => data.first_app.map(|f| f < napps).unwrap_or(true) && napps_ok(data, napps),
+        State::AwaitDataResponse { data, .. } => napps > 0 && data.first_app.map(|f| f < napps).unwrap_or(true),
+        State::ClaimToken { step: ClaimTokenStep::ScanAwaitResponse { address } } => polled(*address),
+        State::ClaimToken { .. } => true,
+        State::PassToken { .. } => true,
+        State::CheckTokenPass { .. } => true,
+        State::AwaitStatusResponse { address } => polled(*address),
+    };
+    let conn_ok = match s.connectivity_state {
+        ConnectivityState::Online => true,
+        ConnectivityState::Offline => matches!(s.state, State::Offline),
+        ConnectivityState::Passive => false,
+    };
+    let t_ok = |t: Inst| t.total_micros() >= 0 && t.total_micros() < T_MAX + 10_000_000;
+    let time_ok = s.last_bus_activity.map(t_ok).unwrap_or(true) && t_ok(s.last_token_time);
+    params_ok && ring_ok && gap_ok && app_ok && state_ok && conn_ok && time_ok
+}
+
+fn napps_ok(_data: &UseTokenData, _napps: usize) -> bool {
+    true
+}
+
+// ==========================================================================================
+// C12: pure GAP lemma on next_gap_poll
+// ==========================================================================================
+
+/// Is `a` inside the station's own GAP: strictly between TS and NS, cyclically, below HSA?
+pub(crate) fn ref_in_gap(a: u8, ts: u8, ns: u8, hsa: u8) -> bool {
+    if a >= hsa || a == ts {
+        return false;
+    }
+    if ns > ts {
+        a > ts && a < ns
+    } else if ns < ts {
+        a > ts || a < ns
+    } else {
+        true
+    }
+}
+
+#[kani::proof]
+fn c12_gap_lemma() {
+    let p = any_params();
+    let mut st = FdlActiveStation::new(p.clone());
+    // NS can be any address the ring view can hold (incl. a station at or above HSA)
+    let ring = any_model(p.address);
+    st.token_ring = from_model(&ring);
+    let (ts, ns, hsa) = (p.address, ring.ns, p.highest_station_address);
+    let current: u8 = kani::any();
+    kani::assume(current < hsa);
+
+    let next = st.next_gap_poll(current);
+
+    let succ = if current == hsa - 1 { 0 } else { current + 1 };
+    match next {
+        GapState::DoPoll { current_address: a } => {
+            assert!(a != ts, "C12/gap-not-self: the station never polls itself");
+            assert!(a < hsa, "C12/gap-below-hsa: only addresses below HSA are polled");
+            assert!(ref_in_gap(a, ts, ns, hsa), "C12/gap-range: a polled address lies strictly between this station and its successor (cyclically)");
+            assert!(a == succ, "C12/gap-no-skip: the sweep advances to the cyclic successor of the last polled address");
+            kani::cover!(a < ts && ns < ts, "cover: wrap-around GAP polled below TS");
+            kani::cover!(ns == ts, "cover: whole ring is GAP when alone");
+        }
+        GapState::Waiting { rotation_count } => {
+            assert!(rotation_count == 0, "C12/gap-wait: a finished sweep starts the waiting period at zero");
+            assert!(!ref_in_gap(succ, ts, ns, hsa), "C12/gap-complete: the sweep ends only when the next address is outside the GAP");
+            kani::cover!(current == ns && ns + 1 == ts, "cover: successor discovered at TS-1 ends the sweep");
+            kani::cover!(current == ns && ns == hsa - 1 && ns > ts, "cover: successor discovered at HSA-1 ends the sweep");
+        }
+    }
+}
